@@ -1838,6 +1838,15 @@ fin:
 	return res;
 }
 
+static inline __attribute__((const)) unsigned int
+inter_past(unsigned int rem, unsigned int inter)
+{
+/* return the least multiple of INTER that is at least REM, for REM > 0,
+ * that's how far to go to leave a filtered day, hour or minute with REM
+ * units left in it without losing the interval's phase */
+	return ((rem - 1U) / inter + 1U) * inter;
+}
+
 size_t
 rrul_fill_Hly(echs_instant_t *restrict tgt, size_t nti, rrulsp_t rr)
 {
@@ -1945,10 +1954,11 @@ rrul_fill_Hly(echs_instant_t *restrict tgt, size_t nti, rrulsp_t rr)
 
 	/* fill up the array the naive way */
 	for (unsigned int w = ymd_get_wday(y, m, d), yd = ymd_get_yd(y, m, d),
-		     maxd = __get_ndom(y, m), maxy = (y % 4U) ? 365 : 366;
+		     maxd = __get_ndom(y, m), maxy = (y % 4U) ? 365 : 366,
+		     inc = rr->inter;
 	     res < nti;
 	     ({
-		     if ((H += rr->inter) >= 24U) {
+		     if ((H += inc) >= 24U) {
 			     d += H / 24U, w += H / 24U, yd += H / 24U;
 			     H %= 24U;
 			     if (w > SUN) {
@@ -1965,6 +1975,7 @@ rrul_fill_Hly(echs_instant_t *restrict tgt, size_t nti, rrulsp_t rr)
 				     maxd = __get_ndom(y, m);
 			     }
 		     }
+		     inc = rr->inter;
 	     })) {
 		/* the first instant this candidate could possibly produce */
 		const echs_instant_t lb = {
@@ -1988,13 +1999,16 @@ rrul_fill_Hly(echs_instant_t *restrict tgt, size_t nti, rrulsp_t rr)
 		 * if not, just continue and check the next candidate */
 		if (!(wd_mask & (1U << w))) {
 			/* huh? */
+			inc = inter_past(24U - H, rr->inter);
 			continue;
 		} else if (!(m_mask & (1U << m))) {
 			/* skip the whole month */
+			inc = inter_past(24U - H, rr->inter);
 			continue;
 		} else if (!(posd_mask & (1U << d)) &&
 			   !(negd_mask & (1U << (maxd - d)))) {
 			/* day is filtered */
+			inc = inter_past(24U - H, rr->inter);
 			continue;
 		} else if (!(H_mask & (1U << H))) {
 			/* hour is filtered */
@@ -2010,6 +2024,8 @@ rrul_fill_Hly(echs_instant_t *restrict tgt, size_t nti, rrulsp_t rr)
 					goto bang;
 				}
 			}
+			/* day is filtered */
+			inc = inter_past(24U - H, rr->inter);
 			continue;
 		}
 
@@ -2160,10 +2176,11 @@ rrul_fill_Mly(echs_instant_t *restrict tgt, size_t nti, rrulsp_t rr)
 	}
 
 	/* fill up the array the naive way */
-	for (unsigned int w = ymd_get_wday(y, m, d), maxd = __get_ndom(y, m);
+	for (unsigned int w = ymd_get_wday(y, m, d), maxd = __get_ndom(y, m),
+		     inc = rr->inter;
 	     res < nti;
 	     ({
-		     if ((M += rr->inter) >= 60U) {
+		     if ((M += inc) >= 60U) {
 			     H += M / 60U, M %= 60U;
 			     if (H >= 24U) {
 				     d += H / 24U, w += H / 24U, H %= 24U;
@@ -2180,6 +2197,7 @@ rrul_fill_Mly(echs_instant_t *restrict tgt, size_t nti, rrulsp_t rr)
 				     }
 			     }
 		     }
+		     inc = rr->inter;
 	     })) {
 		/* the first instant this candidate could possibly produce */
 		const echs_instant_t lb = {
@@ -2204,16 +2222,20 @@ rrul_fill_Mly(echs_instant_t *restrict tgt, size_t nti, rrulsp_t rr)
 		 * if not, just continue and check the next candidate */
 		if (!(wd_mask & (1U << w))) {
 			/* huh? */
+			inc = inter_past(1440U - (H * 60U + M), rr->inter);
 			continue;
 		} else if (!(m_mask & (1U << m))) {
 			/* skip the whole month */
+			inc = inter_past(1440U - (H * 60U + M), rr->inter);
 			continue;
 		} else if (!(posd_mask & (1U << d)) &&
 			   !(negd_mask & (1U << (maxd - d)))) {
 			/* day is filtered */
+			inc = inter_past(1440U - (H * 60U + M), rr->inter);
 			continue;
 		} else if (!(H_mask & (1U << H))) {
 			/* hour is filtered */
+			inc = inter_past(60U - M, rr->inter);
 			continue;
 		} else if (!(M_mask & (1ULL << M))) {
 			/* minute is filtered */
@@ -2231,6 +2253,8 @@ rrul_fill_Mly(echs_instant_t *restrict tgt, size_t nti, rrulsp_t rr)
 					goto bang;
 				}
 			}
+			/* day is filtered */
+			inc = inter_past(1440U - (H * 60U + M), rr->inter);
 			continue;
 		}
 
@@ -2393,10 +2417,11 @@ rrul_fill_Sly(echs_instant_t *restrict tgt, size_t nti, rrulsp_t rr)
 	}
 
 	/* fill up the array the naive way */
-	for (unsigned int w = ymd_get_wday(y, m, d), maxd = __get_ndom(y, m);
+	for (unsigned int w = ymd_get_wday(y, m, d), maxd = __get_ndom(y, m),
+		     inc = rr->inter;
 	     res < nti;
 	     ({
-		     if ((S += rr->inter) >= 60U) {
+		     if ((S += inc) >= 60U) {
 			     M += S / 60U, S %= 60U;
 			     if (M >= 60U) {
 				     H += M / 60U, M %= 60U;
@@ -2417,6 +2442,7 @@ rrul_fill_Sly(echs_instant_t *restrict tgt, size_t nti, rrulsp_t rr)
 				     }
 			     }
 		     }
+		     inc = rr->inter;
 	     })) {
 		/* the instant this candidate would produce */
 		const echs_instant_t x = {
@@ -2442,19 +2468,27 @@ rrul_fill_Sly(echs_instant_t *restrict tgt, size_t nti, rrulsp_t rr)
 		 * if not, just continue and check the next candidate */
 		if (!(wd_mask & (1U << w))) {
 			/* huh? */
+			inc = inter_past(
+				86400U - ((H * 60U + M) * 60U + S), rr->inter);
 			continue;
 		} else if (!(m_mask & (1U << m))) {
 			/* skip the whole month */
+			inc = inter_past(
+				86400U - ((H * 60U + M) * 60U + S), rr->inter);
 			continue;
 		} else if (!(posd_mask & (1U << d)) &&
 			   !(negd_mask & (1U << (maxd - d)))) {
 			/* day is filtered */
+			inc = inter_past(
+				86400U - ((H * 60U + M) * 60U + S), rr->inter);
 			continue;
 		} else if (!(H_mask & (1U << H))) {
 			/* hour is filtered */
+			inc = inter_past(3600U - (M * 60U + S), rr->inter);
 			continue;
 		} else if (!(M_mask & (1ULL << M))) {
 			/* minute is filtered */
+			inc = inter_past(60U - S, rr->inter);
 			continue;
 		} else if (!(S_mask & (1ULL << S))) {
 			/* second is filtered */
@@ -2472,6 +2506,9 @@ rrul_fill_Sly(echs_instant_t *restrict tgt, size_t nti, rrulsp_t rr)
 					goto bang;
 				}
 			}
+			/* day is filtered */
+			inc = inter_past(
+				86400U - ((H * 60U + M) * 60U + S), rr->inter);
 			continue;
 		}
 
